@@ -85,7 +85,7 @@ func VP_C07_isolation() {
 
 //vp:property C07
 //vp:set s 2 3
-//vp:bounds two legacy/websocket requests whose connection ids are a common constant prefix of 0, 36, 38 or 64 characters followed by 0..s symbolic bytes each (equal or different; non-empty), each RDG_OUT_DATA (legacy or websocket upgrade) or RDG_IN_DATA; cache entries may expire at any lookup; IN connections deliver a handshake and drop
+//vp:bounds two legacy/websocket requests whose connection ids are a common constant prefix of 0, 36, 38 or 64 characters followed by 0..s symbolic bytes each (equal or different; non-empty) or that carry no Rdg-Connection-Id header at all, each RDG_OUT_DATA (legacy or websocket upgrade) or RDG_IN_DATA; cache entries may expire at any lookup; IN connections deliver a handshake and drop
 //vp:reach paired separate
 func VP_C07_pairing() {
 	vpResetHandlers()
@@ -99,11 +99,19 @@ func VP_C07_pairing() {
 		is := itoa(i)
 		// a common prefix of GUID-like length (0, 36, 38 or 64 characters) followed by a symbolic suffix
 		ids[i] = vpIDPrefix[:[]int{0, 36, 38, 64}[vpIntRange("idprefix", 0, 3)]] + vpString("id"+is, n)
-		vpAssume(len(ids[i]) >= 1)
+		noID := vpBool("no-connection-id-header-" + is) // the request carries no identifier at all
+		if noID {
+			ids[i] = ""
+		} else {
+			vpAssume(len(ids[i]) >= 1)
+		}
 		kinds[i] = vpIntRange("kind"+is, 0, 2) // 0 legacy OUT, 1 legacy IN, 2 websocket
 		trs[i] = vpScript(1, 0)
 		vpNextTransports = []*vpTransport{trs[i]}
 		hdr := http.Header{"Rdg-Connection-Id": {ids[i]}}
+		if noID {
+			hdr = http.Header{}
+		}
 		m := MethodRDGOUT
 		switch kinds[i] {
 		case 1:
@@ -142,12 +150,13 @@ func VP_C07_pairing() {
 	if shared {
 		vpReach("paired")
 		vpAssert(ids[0] == ids[1], "connections-are-paired-only-under-the-same-connection-id")
+		vpAssert(ids[0] != "" && ids[1] != "", "requests-that-carry-no-connection-id-are-never-paired")
 		vpAssert(kinds[0] != 2 && kinds[1] != 2, "websocket-tunnels-are-never-paired")
 	} else {
 		vpReach("separate")
 	}
 	// the pairing works at all: OUT then IN with the same id and no expiry share a tunnel
-	if kinds[0] == 0 && kinds[1] == 1 && ids[0] == ids[1] && !vpExpiredAny {
+	if kinds[0] == 0 && kinds[1] == 1 && ids[0] == ids[1] && ids[0] != "" && !vpExpiredAny {
 		vpAssert(shared, "legacy-out-then-in-with-the-same-id-form-one-tunnel")
 	}
 }
